@@ -10,7 +10,9 @@ import itertools
 import json
 import re
 import subprocess
+import threading
 import vcheck
+import vworker
 from vcheck import coq_list
 
 HEADER = "From V.C09 Require Import Spec Model Run.\nFrom Coq Require Import ZArith.\n"
@@ -55,9 +57,15 @@ def coq_stress(case, run):
     return "{| s_progs := %s; s_res := %s |}" % (coq_progs(case["threads"]), coq_list(coq_list(coq_obs(e) for e in t) for t in run))
 
 
-def run_lines(cmd, lines, timeout=1500):
-    p = subprocess.run(cmd, input="\n".join(lines) + "\n", stdout=subprocess.PIPE, stderr=subprocess.PIPE, text=True, timeout=timeout)
-    return [json.loads(l) for l in p.stdout.splitlines() if l.strip()], p.returncode, p.stderr
+def run_lines(cmd, lines, timeout=400):
+    """one JSON line in, one out; a dead or hanging worker is attributed to its line (vworker)"""
+    res = vworker.run_worker(cmd, [json.loads(l) for l in lines], per_case_timeout=timeout)
+    return res, 0, ""
+
+
+def death_violation(ck, mode, case, info):
+    ck.violation("worker-death:%s:%s" % (mode, info.get("signature")), {"mode": mode, "case": case, "impl_out": info,
+                 "clause": "the engine process died or hung while running this case (no_crash / deadlock)"})
 
 
 def main(ck):
@@ -115,17 +123,20 @@ def main(ck):
     if cases:
         # several engine processes in parallel (each case is independent)
         chunks = [cases[i::8] for i in range(8)]
-        procs = [subprocess.Popen([binary, "sched"], stdin=subprocess.PIPE, stdout=subprocess.PIPE, stderr=subprocess.PIPE, text=True)
-                 for _ in chunks]
-        outs = []
-        for p, ch in zip(procs, chunks):
-            o, e = p.communicate("\n".join(json.dumps(c) for c in ch) + "\n", timeout=1500)
-            outs.append([json.loads(l) for l in o.splitlines() if l.strip()])
+        outs = [None] * len(chunks)
+
+        def work(k):
+            outs[k] = vworker.run_worker([binary, "sched"], chunks[k], per_case_timeout=180)
+        ths = [threading.Thread(target=work, args=(k,)) for k in range(len(chunks))]
+        for t in ths:
+            t.start()
+        for t in ths:
+            t.join()
         for ch, os_ in zip(chunks, outs):
-            if len(os_) != len(ch):
-                ck.broken.append("harness-run:sched")
-                continue
-            for c, o in zip(ch, os_):
+            for c, o in zip(ch, os_ or [{"worker_death": {"signature": "driver-thread-failed"}}] * len(ch)):
+                if "worker_death" in o:
+                    death_violation(ck, "sched", c, o["worker_death"])
+                    continue
                 if c.get("explore"):
                     if o.get("complete"):
                         complete += 1
@@ -171,6 +182,9 @@ def main(ck):
     sterms, smap = [], []
     nfail = 0
     for c, o in zip(stress, souts):
+        if "worker_death" in o:
+            death_violation(ck, "stress", c, o["worker_death"])
+            continue
         if o.get("exit", 0) != 0 or o.get("race") or o.get("fatal"):
             nfail += 1
             fns = sorted(set(re.findall(r"channel\.\(\*Channel\)\.(\w+)", " ".join(o.get("report", [])))))
@@ -181,8 +195,6 @@ def main(ck):
         for r in runs[:12]:
             sterms.append(coq_stress(c, r))
             smap.append((c, r))
-    if stress and len(souts) != len(stress):
-        ck.broken.append("harness-run:stress")
     sbad = ck.eval_cases("stress", HEADER, sterms, "check_stress", shard=max(50, len(sterms) // 16 + 1)) if sterms else {}
     for j, cls in sorted(sbad.items()):
         c, r = smap[j]
@@ -213,7 +225,9 @@ echo $n, "|", $ch->isClosed() ? "closed" : "open", "|", $ch->send(5) ? "sent" : 
     nscript = 0
     if not ck.replay:
         so, rc, err = run_lines([racebin, "script"], [json.dumps({"src": SCRIPT, "repeat": 20 if ck.tier == "quick" else 300})], timeout=600)
-        if not so or "runs" not in so[0]:
+        if so and "worker_death" in so[0]:
+            death_violation(ck, "script", {"src": SCRIPT}, so[0]["worker_death"])
+        elif not so or "runs" not in so[0]:
             ck.broken.append("harness-run:script")
             ck.log("script engine failed rc=%s\n%s" % (rc, err[-1500:]))
         else:
